@@ -6,7 +6,8 @@ FUNCTIONS = ENTRY + [N + 'get_contents', N + 'get_parent'] + HUB
 TRUSTED = [A_PY, A_BS4, A_IR, A_SMT, A_PRE]
 ASSUMPTIONS = TRUSTED
 EXPLANATION = ('CSSMatch.match/select/closest/filter are proved to be the views the property states (filtered tag-descendant sequence with limit, '
-               'nearest matching ancestor-or-self and never the document object, matching element children) of one relation `matches`.')
+               'nearest matching ancestor-or-self and never the document object, matching element children) of one relation `matches`; the tag-descendant sequence is what '
+               'get_descendants is proved to yield over bs4\'s pre-order el.descendants (document order, no node twice: A-bs4-preorder, validated natively).')
 LEVEL_TEXT = EXPLANATION
 TIMEOUT_MS = {'quick': 20000, 'thorough': 120000}
 MUSTFAIL_PER_FN = {'quick': 1, 'thorough': 6}
